@@ -88,10 +88,12 @@ public:
   static void splitCommandLine(const String& commandLine, List<String>& command)
   {
     String arg;
+    bool quoted = false;
     for (const char* p = commandLine; *p;)
       switch (*p)
       {
       case '"':
+        quoted = true;
         for (++p; *p;)
         {
           switch (*p)
@@ -118,12 +120,13 @@ public:
       case ' ':
         command.append(arg);
         arg.clear();
+        quoted = false;
         ++p;
         break;
       default:
         arg.append(*(p++));
       }
-    if (!arg.isEmpty())
+    if (quoted || !arg.isEmpty())
       command.append(arg);
   }
 #endif
